@@ -54,9 +54,10 @@ def main(argv=None):
         spec, obs, rule_errors = run_rules(repo, prop, args.tier)
         selftest_info = None
         if args.tier == "thorough" and not args.replay and not args.no_evidence:
-            bad_now = [o for o in obs if not o.ok]
+            _kf = load_known_findings()
+            bad_now = [o for o in obs if not o.ok and not any(finding_matches(f, prop, o) for f in _kf)]
             from selftest.corpus import run_corpus
-            selftest_info = run_corpus(prop, skip=bool(bad_now), seed=seed)
+            selftest_info = run_corpus(prop, skip=bool(bad_now) or bool(rule_errors), seed=seed)
     except AnalysisError as e:
         print("ANALYSIS-ERROR property=%s %s" % (prop, e))
         return 2
